@@ -297,6 +297,11 @@ def join(vs):
         filled = [v for v in vs if v.k == "dict" and not (v.elem is None and v.kelem is None and not v.meths)]
         if filled and all(v.kelem is not None for v in filled) and all(v.k == "dict" for v in vs):
             out.kelem = join([v.kelem for v in filled])
+        if all(v.k == "dict" and v.const == "defaultdict" for v in vs):
+            # a defaultdict(list) on several paths: its keys are the object keys met on any of them
+            out.const = "defaultdict"
+            with_k = [v.kelem for v in vs if v.kelem is not None]
+            out.kelem = join(with_k) if with_k else None
     if JOIN_KEEPS_ALTS and k == "E" and all(v.k == "E" for v in vs):
         # "one of these values" (outcomes of a dispatch over methods / receiver classes): the alternatives stay apart,
         # so that a parent recorded by one outcome does not hide its absence in another
@@ -786,6 +791,13 @@ class Interp:
         i = self.ev(e.slice, env, cx)
         if b.k == "dict" and b.meths is not None:
             return V("meth", meths=b.meths, deps=b.deps | i.deps)
+        if b.k == "dict" and b.const == "defaultdict" and b.elem is not None and b.elem.k == "list":
+            # d[key] of a defaultdict(list): the list kept under that key, created on first access — mutating what this
+            # returns (append / extend) fills the dict; a model object used as key becomes one of its keys
+            if i.k == "obj":
+                b.kelem = join([b.kelem, i]) if b.kelem is not None else i
+            b.deps = b.deps | i.deps
+            return b.elem
         if b.k in ("list", "dict"):
             if b.elem is not None:
                 return add_deps(b.elem, i.deps)
@@ -857,6 +869,8 @@ class Interp:
         if it.k in ("list",) and it.elem is not None:
             return add_deps(it.elem, it.deps)
         if it.k == "dict":
+            if it.kelem is not None:
+                return add_deps(it.kelem, it.deps)      # iterating a dict keyed by model objects: those objects
             return raw(it.deps, deg={})
         if it.k == "list":
             return V("raw", deps=it.deps)
@@ -1300,6 +1314,20 @@ class Interp:
             return self.taintdeg(v, cx)
         if n == "ExplainableObjectDict":
             return V("E", anc=F(), deps=cx.ctldeps(), deg=None, fresh=True, label=True, ek={"EDICT"})
+        if n == "defaultdict":
+            # defaultdict(list[, {key: [...]}]): a dict of lists; other factories: a dict of what the factory builds
+            fac = e.args[0] if e.args else None
+            init = args[1] if len(args) > 1 else None
+            if isinstance(fac, ast.Name) and fac.id in ("list", "set"):
+                el = V("list")
+                if init is not None and init.k == "dict" and init.elem is not None and init.elem.k == "list":
+                    el = V("list", elem=init.elem.elem, deps=init.elem.deps)
+                return V("dict", elem=el, const="defaultdict", deps=init.deps if init is not None else F(),
+                         kelem=init.kelem if init is not None else None)
+            if isinstance(fac, ast.Name):
+                made = self.call_name(fac.id, ast.Call(func=fac, args=[], keywords=[]), [], {}, F(), env, cx)
+                return V("dict", elem=made, deps=F())
+            return V("dict")
         if n in ("list", "set", "sorted", "tuple", "reversed"):
             if a0 is None:
                 return V("list")
